@@ -288,20 +288,18 @@ def handleReset (c : Conn) (s : Stream) (code finalSize : Int) : Conn × Stream 
     else (c, 0)
   if err ≠ 0 then (c, s, err) else
   -- bytes parked in the fast-path buffer were already credited by `Read`; `discardInbufLocked` drops them
-  let c := c.bytesReadOnLoop (finalSize - s.inp.start - s.inbuf.length)
-  let s := { s with inbuf := [], inbufoff := 0 }
-  let s := { s with inp := Pipe.discardBefore s.inp s.inp.stop, inresetcode := code, insize := finalSize }
-  (c, s, 0)
+  let c := c.bytesReadOnLoop (finalSize - s.inp.start - (s.inbuf.length : Int))
+  (c, { s with inbuf := [], inbufoff := 0, inp := Pipe.discardBefore s.inp s.inp.stop,
+                inresetcode := code, insize := finalSize }, 0)
 
 /-- `Stream.CloseRead`. -/
 def closeRead (c : Conn) (s : Stream) : Conn × Stream :=
   if s.writeOnly then (c, s) else
-  let s := if Rangeset.isrange s.inset 0 s.insize ∨ s.inresetcode ≠ -1
-    then { s with inclosed := .received } else { s with inclosed := s.inclosed.set }
-  let discarded := s.inp.stop - s.inp.start - s.inbuf.length   -- `discardInbufLocked` (already credited)
-  let s := { s with inbuf := [], inbufoff := 0 }
-  let s := { s with inp := Pipe.discardBefore s.inp s.inp.stop }
-  (c.bytesReadOffLoop discarded, s)
+  let cl : SV := if Rangeset.isrange s.inset 0 s.insize ∨ s.inresetcode ≠ -1 then .received else s.inclosed.set
+  -- `discardInbufLocked`: bytes parked in the fast-path buffer were already credited by `Read`
+  let discarded := s.inp.stop - s.inp.start - (s.inbuf.length : Int)
+  (c.bytesReadOffLoop discarded,
+   { s with inclosed := cl, inbuf := [], inbufoff := 0, inp := Pipe.discardBefore s.inp s.inp.stop })
 
 /-- `appendInFramesLocked`: STOP_SENDING and MAX_STREAM_DATA. -/
 def appendInFrames (s : Stream) (w : Writer) (pnum : Int) (pto : Bool) : Stream × Writer × Bool :=
